@@ -484,7 +484,8 @@ type validTable struct {
 	Valid []bool `json:"valid"`
 }
 
-// TestVerifC37Valid: T->I for PathPattern!Valid over pattern strings (VERIF_DOMAINS / VERIF_TABLES):
+// TestVerifC37Valid: T->I for PathPattern!Valid over pattern strings (VERIF_DOMAINS / VERIF_TABLES;
+// the strings of a domain file and the field valid of the matching expansion table):
 // ParsePathPattern must accept exactly the strings the reference calls valid (none of the strings
 // of this domain can exceed the limit on expansions).
 func TestVerifC37Valid(t *testing.T) {
@@ -736,7 +737,7 @@ func TestVerifC37Random(t *testing.T) {
 				}
 			}
 		}
-		em.emit(map[string]interface{}{"case": i, "s": s, "ast": ast, "paths": pc, "spaths": paths, "ok": rp.ok, "err": rp.err,
+		em.emit(map[string]interface{}{"kind": "match", "case": i, "s": s, "ast": ast, "paths": pc, "spaths": paths, "ok": rp.ok, "err": rp.err,
 			"n": rp.n, "calls": rp.calls, "m": m, "or_variants": or})
 	}
 }
